@@ -116,6 +116,7 @@ type real struct {
 	subs        map[string]*realSub
 	subOrder    []string
 	pids        map[string]*pidInfo // PullID subscriptions, by name
+	arena                           // how option slices are handed to the calls (options_arena.go)
 }
 
 // pidInfo: a PullID subscription is observed together with a hidden plain Pull with the same options
@@ -432,68 +433,106 @@ type callbacks struct {
 	created int
 }
 
+// writeOption translates one option token; callbacks report to whatever record cur() returns at the
+// time they fire (an option value kept in a shared slice outlives the call it was first made for).
+func writeOption(t string, cur func() *callbacks) resource.WriteOption {
+	k, v := t, ""
+	if i := strings.IndexByte(t, '='); i >= 0 {
+		k, v = t[:i], t[i+1:]
+	}
+	switch k {
+	case "wt":
+		return resource.WithWriteTime(instant(v))
+	case "um":
+		if v == "nil" {
+			return resource.WithUpdateMask(nil)
+		}
+		return resource.WithUpdateMask(parseMask(v))
+	case "mum":
+		return resource.WithMoreUpdateMask(parseMask(v))
+	case "rs":
+		if v == "nil" {
+			return resource.WithResetMask(nil)
+		}
+		return resource.WithResetMask(parseMask(v))
+	case "ev":
+		if v == "nil" {
+			return resource.WithExpectedValue(nil)
+		}
+		return resource.WithExpectedValue(parseMsg(v))
+	case "xa":
+		return resource.WithExpectAbsent()
+	case "chk":
+		return resource.WithExpectedCheck(namedCheck(v))
+	case "am":
+		return resource.WithAllowMissing(true)
+	case "am0":
+		return resource.WithAllowMissing(false)
+	case "bf":
+		return resource.InterceptBefore(namedBefore(v))
+	case "af":
+		return resource.InterceptAfter(namedAfter(v))
+	case "nw":
+		return resource.WithAllFieldsWritable()
+	case "mw":
+		return resource.WithMoreWritableFields(parseMask(v))
+	case "cia":
+		return resource.WithCreateIfAbsent()
+	case "ccb":
+		return resource.WithCreatedCallback(func() { cur().created++ })
+	case "gid":
+		return resource.WithGenIDIfAbsent()
+	case "icb":
+		return resource.WithIDCallback(func(id string) { c := cur(); c.ids = append(c.ids, id) })
+	}
+	panic("unknown write option " + t)
+}
+
+// writeOptions: a fresh slice holding exactly the options (len == cap), as a call with the options
+// written inline passes.
 func writeOptions(o Op, cb *callbacks) []resource.WriteOption {
-	var ws []resource.WriteOption
+	ws := make([]resource.WriteOption, 0, len(o.Opts))
 	for _, t := range o.Opts {
-		k, v := t, ""
-		if i := strings.IndexByte(t, '='); i >= 0 {
-			k, v = t[:i], t[i+1:]
-		}
-		switch k {
-		case "wt":
-			ws = append(ws, resource.WithWriteTime(instant(v)))
-		case "um":
-			ws = append(ws, resource.WithUpdateMask(parseMask(v)))
-		case "rs":
-			ws = append(ws, resource.WithResetMask(parseMask(v)))
-		case "ev":
-			ws = append(ws, resource.WithExpectedValue(parseMsg(v)))
-		case "xa":
-			ws = append(ws, resource.WithExpectAbsent())
-		case "chk":
-			ws = append(ws, resource.WithExpectedCheck(namedCheck(v)))
-		case "am":
-			ws = append(ws, resource.WithAllowMissing(true))
-		case "bf":
-			ws = append(ws, resource.InterceptBefore(namedBefore(v)))
-		case "af":
-			ws = append(ws, resource.InterceptAfter(namedAfter(v)))
-		case "nw":
-			ws = append(ws, resource.WithAllFieldsWritable())
-		case "mw":
-			ws = append(ws, resource.WithMoreWritableFields(parseMask(v)))
-		case "cia":
-			ws = append(ws, resource.WithCreateIfAbsent())
-		case "ccb":
-			ws = append(ws, resource.WithCreatedCallback(func() { cb.created++ }))
-		case "gid":
-			ws = append(ws, resource.WithGenIDIfAbsent())
-		case "icb":
-			ws = append(ws, resource.WithIDCallback(func(id string) { cb.ids = append(cb.ids, id) }))
-		default:
-			panic("unknown write option " + t)
-		}
+		ws = append(ws, writeOption(t, func() *callbacks { return cb }))
 	}
 	return ws
 }
 
-func readOptions(o Op) []resource.ReadOption {
-	var rs []resource.ReadOption
-	for _, t := range o.Opts {
-		k, v := t, ""
-		if i := strings.IndexByte(t, '='); i >= 0 {
-			k, v = t[:i], t[i+1:]
+func readOption(t string) (resource.ReadOption, bool) {
+	k, v := t, ""
+	if i := strings.IndexByte(t, '='); i >= 0 {
+		k, v = t[:i], t[i+1:]
+	}
+	switch k {
+	case "rm":
+		if v == "nil" {
+			return resource.WithReadMask(nil), true
 		}
-		switch k {
-		case "rm":
-			rs = append(rs, resource.WithReadMask(parseMask(v)))
-		case "inc":
-			rs = append(rs, resource.WithInclude(namedInclude(v)))
-		case "uo":
-			rs = append(rs, resource.WithUpdatesOnly(true))
-		case "name", "id":
-		default:
-			panic("unknown read option " + t)
+		return resource.WithReadMask(parseMask(v)), true
+	case "inc":
+		if v == "nil" {
+			return resource.WithInclude(nil), true
+		}
+		return resource.WithInclude(namedInclude(v)), true
+	case "uo":
+		return resource.WithUpdatesOnly(true), true
+	case "uo0":
+		return resource.WithUpdatesOnly(false), true
+	case "bp":
+		return resource.WithBackpressure(true), true
+	case "bp0":
+		return resource.WithBackpressure(false), true
+	case "name", "id":
+		return nil, false
+	}
+	panic("unknown read option " + t)
+}
+
+func readOptions(o Op) []resource.ReadOption {
+	rs := make([]resource.ReadOption, 0, len(o.Opts))
+	for _, t := range o.Opts {
+		if ro, ok := readOption(t); ok {
+			rs = append(rs, ro)
 		}
 	}
 	return rs
@@ -511,7 +550,8 @@ func (r *real) runWrite(o Op) (answer string, sends int) {
 	go func() {
 		defer close(done)
 		_, pmsg = lib.Catch(func() {
-			ws := writeOptions(o, cb)
+			ws := r.viewW(o, cb)
+			defer r.checkW(o)
 			switch o.Op {
 			case "upd":
 				val, err = r.coll.Update(o.ID, parseMsg(o.Msg), ws...)
@@ -663,7 +703,8 @@ func waitClosedV(ch <-chan *resource.ValueChange) {
 func (r *real) runRead(o Op) string {
 	var out string
 	p, msg := lib.Catch(func() {
-		rs := readOptions(o)
+		rs := r.viewR(o)
+		defer r.checkR(o)
 		switch o.Op {
 		case "get":
 			m, ok := r.coll.Get(o.ID, rs...)
